@@ -328,3 +328,37 @@ def result_reaches(cfg, nid, call, goals, value="F", assume=None, avoid=None):
     goals = set(goals)
     return cfg.flag_search(nid, {}, lambda n, vd: n in goals, avoid=avoid or (),
                            assume=env)
+
+
+def value_satisfies(cfg, name, nid, want, depth=5):
+    """Does the value of local `name` at node nid satisfy `want(name, facts)`
+    - either by the guards in force at nid, or, for every definition that
+    reaches nid, by the guards in force where the value was produced (following
+    plain copies `a = b`); a `None` definition is fine where nid is guarded by
+    `name is not None` (or truthiness).  Lets a rule such as "only a non-empty
+    text is returned" hold whether the test is made right before the return or
+    where the value was obtained (e.g. in an expanded helper)."""
+    fs = facts(cfg, nid)
+    if want(name, fs):
+        return True
+    if depth <= 0:
+        return False
+    defs = cfg.rd.reaching(name, nid)
+    if not defs:
+        return False
+    for d in defs:
+        if d.kind != "assign" or d.value is None:
+            return False
+        v = d.value
+        if isinstance(v, ast.Constant) and (v.value is None or v.value is False):
+            if Q("%s is None" % name, False) in fs or Q(name, True) in fs:
+                continue
+            return False
+        if isinstance(v, ast.Name):
+            if value_satisfies(cfg, v.id, d.node, want, depth - 1):
+                continue
+            return False
+        # produced here: the test may follow the assignment and precede nid on
+        # every path - not decided by this helper
+        return False
+    return True
